@@ -220,6 +220,7 @@ def run_c09(F, R, tier):
     linear_members_branch_free(F, R)
     history_fading(F, R, tier)
     R.floor('S5-history', 5)
+    output_queue_no_hold(F, R)
     R.floor('S1-radius', 9)
     R.floor('S3-exp', 3)
     R.decline('boundedness through the non-linear stages beyond the rules above, "any chain built from them", and N beyond the enumerated range (except through the exp-form rule) are not decided')
@@ -301,6 +302,27 @@ def normaliser_rule(F, R, constants=None):
         R.ob('S2-normaliser', n, ok, detail, v.file)
 
 
+def buffer_by_role(F, v, role):
+    """Name of the buffer playing a structural role, so that rules do not depend on field names:
+    'input'     the queue the inner view's output is pushed onto
+    'output'    the queue whose newest element last() returns
+    'recursive' the queue whose pushed value is computed from its own earlier elements (a filter's delay line)"""
+    fl = flow(F, v)
+    m = fl.m
+    found = []
+    for q, info in fl.queues.items():
+        V = info.get('V')
+        if V is None:
+            continue
+        if role == 'input' and V[0] == 'child':
+            found.append(q)
+        elif role == 'output' and any(x[0] == 'back' and x[1] == ('in', q) for x in subterms(m.last_ret)):
+            found.append(q)
+        elif role == 'recursive' and any(x == ('in', q) for x in subterms(V)):
+            found.append(q)
+    return found[0] if len(found) == 1 else None
+
+
 def laguerre_rsi_ladder(F, R, Ns):
     """LaguerreRSI: the four stages form a ladder: L0' = (1−γ)·x + γ·L0[b]; for k = 1..3  Lk' = −γ·L(k−1)[a] + L(k−1)[b] + γ·Lk[b]
     with the same two lag positions a, b in every stage (the stages are siblings: stage k+1 must be stage k with the buffers
@@ -319,11 +341,27 @@ def laguerre_rsi_ladder(F, R, Ns):
         g = 2.0 / (N + 1)
         for sy in sysl:
             rows = sy['rows']
-            stages = {}
+            # stage buffers by structure, not by name: the new (non-shift) row of each buffer; stage 0 is the one fed by the input,
+            # stage k+1 the one that reads stage k
+            newrow = {}
             for a, f in rows.items():
-                mt = _re.match(r'^b:(l(\d)s):(\d+)$', a)
+                mt = _re.match(r'^b:(.+):(\d+)$', a)
                 if mt and not (len(f) == 1 and list(f.values()) == [1.0] and list(f)[0].startswith('b:' + mt.group(1) + ':')):
-                    stages[int(mt.group(2))] = f
+                    newrow[mt.group(1)] = f
+            order = [b for b, f in newrow.items() if 'u' in f]
+            while len(order) >= 1 and len(order) < len(newrow):
+                prev = order[-1]
+                nxt_ = [b for b, f in newrow.items() if b not in order and any(x.startswith('b:%s:' % prev) for x in f)]
+                if len(nxt_) != 1:
+                    break
+                order.append(nxt_[0])
+            if len(order) != 4:
+                continue
+            stages = {}
+            for k_, b in enumerate(order):
+                # rename to the canonical l<k>s so that the stage comparison below is independent of field names
+                stages[k_] = {(_re.sub(r'^b:(.+):(\d+)$', lambda m_: 'b:l%ds:%s' % (order.index(m_.group(1)), m_.group(2)) if m_.group(1) in order else m_.group(0), x)): c
+                              for x, c in newrow[b].items()}
             if sorted(stages) != [0, 1, 2, 3]:
                 continue
             cnt += 1
@@ -473,13 +511,20 @@ def pfe_sign_rule(F, R):
         return
     m = model(F, v)
     fed = None
+    fed_pc = ()
     for cp, feeds in m.up_vg.child_fed.items():
         for pc, arg, node in feeds:
             if arg[0] != 'arg':
                 fed = arg
+                fed_pc = tuple(c for c in pc if isinstance(c, tuple) and c and c[0] != 'inloop')
     ok = fed is not None
     detail = 'no value fed to the moving average'
     seen = set()
+    from .e3_bounds import Bounds, structural_cond
+    from .solve import Hyps, entails_h
+    B_ = Bounds(F, v)
+    ctx_ = B_.ctx(m.up_vg)
+    base_ = Hyps(B_.pre + B_.houdini(), ctx_)
     if fed is not None:
         V = None
         for x in subterms(fed):
@@ -495,15 +540,30 @@ def pfe_sign_rule(F, R):
                     x = x[2][0]
                 if x[0] == 'op' and x[1] in ('lt', 'le', 'gt', 'ge', 'eq', 'ne') and V in x[2]:
                     other = x[2][1] if x[2][0] == V else x[2][0]
-                    if other[0] == 'get':
+                    if other[0] in ('get', 'back', 'front'):
                         r = relation(c, V, other)
                         if r is not None:
                             allowed &= r
                             prevs.add(other)
+                            # the compared element must be the previous value: position len-2 of the window that already
+                            # holds the newest value (or the newest element of the window before the push)
+                            seq_ = other[1]
+                            is_prev = False
+                            if other[0] == 'get':
+                                H_ = base_.extended([cc for cc in list(conds) + list(fed_pc) if structural_cond(cc, ctx_)])
+                                if seq_[0] == 'push_back' and seq_[2] == V:
+                                    is_prev = entails_h(H_, op('eq', op('iadd', other[2], lit(2, 'i')), ('len', seq_)))
+                                else:
+                                    is_prev = entails_h(H_, op('eq', op('iadd', other[2], lit(1, 'i')), ('len', seq_))) and not any(y == V for y in subterms(seq_))
+                            elif other[0] == 'back':
+                                is_prev = not any(y == V for y in subterms(seq_))
+                            if not is_prev:
+                                ok = False
+                                detail = 'the sign is decided by comparing the newest value with %s, which is not the previous value' % tstr(other)[:70]
             if not prevs:
                 continue
             seen.add(negated)
-            if negated and not allowed <= {'<'}:
+            if ok and negated and not allowed <= {'<'}:
                 ok = False
                 detail = 'the ratio is negated although the last step may be flat or up (newest ? previous in %s)' % sorted(allowed)
             if not negated and not allowed <= {'>', '='}:
@@ -588,8 +648,9 @@ def run_c11(F, R, tier):
     compare('RoofingFilter', lambda N, M, g, K: ref_roofing(N, M, K), Ms=(2, 5) if tier == 'quick' else (1, 2, 3, 5, 10))
     compare('LaguerreFilter', lambda N, M, g, K: ref_laguerre(g, K), gammas=(0.0, 0.2, 0.5, 0.8, 0.95))
     tf = lambda N, M, g, K: ref_supersmoother(N, K, ss_coeffs(N, 8.88442402435, 4.44221201218))
-    compare('TrendFlex', tf, out_atom='q_filts')
-    compare('ReFlex', tf, out_atom='q_vals')
+    for n_ in ('TrendFlex', 'ReFlex'):
+        if views.get(n_) is not None:
+            compare(n_, tf, out_atom=buffer_by_role(F, views[n_], 'recursive') or '?')
     # named coefficients that are constructor parameters
     for n, cell, f in (('CyberCycle', 'alpha', lambda N: 2.0 / (N + 1)), ('LaguerreRSI', 'gamma', lambda N: 2.0 / (N + 1))):
         v = views.get(n)
@@ -630,23 +691,41 @@ def run_c11(F, R, tier):
         # in the crate's), so the rule does not depend on how the smoothing buffer is laid out.
         bad = []
         cnt = 0
+        q_out = buffer_by_role(F, v, 'output') or 'out'
+        q_in = buffer_by_role(F, v, 'input') or 'vals'
         for N in [N for N in Ns if 6 <= N <= 64]:
             sysl = extract(F, v, m, N)
             if isinstance(sysl, str) or not sysl:
                 continue
             al = 2.0 / (N + 1)
             for sy in sysl:
-                row = sy['rows'].get('b:out:%d' % (N - 1))
-                if row is None:
+                # the new element of the output queue: its only row that is not a plain shift
+                pre = 'b:%s:' % q_out
+                news = [f for a, f in sy['rows'].items() if a.startswith(pre) and not (len(f) == 1 and list(f.values()) == [1.0] and list(f)[0].startswith(pre))]
+                if len(news) != 1:
                     continue
+                row = news[0]
                 cnt += 1
-                got = (6.0 * row.get('b:vals:%d' % (N - 5), 0.0), row.get('b:out:%d' % (N - 1), 0.0), row.get('b:out:%d' % (N - 2), 0.0))
+                own = sorted([(int(a.split(':')[-1]), c) for a, c in row.items() if a.startswith(pre)], reverse=True)
+                fb1 = own[0][1] if own else 0.0
+                fb2 = own[1][1] if len(own) > 1 else 0.0
+                got = (6.0 * row.get('b:%s:%d' % (q_in, N - 5), 0.0), fb1, fb2)
                 want = ((1 - al / 2) ** 2, 2 * (1 - al), -(1 - al) ** 2)
                 if any(abs(a - b) > 1e-9 for a, b in zip(got, want)):
                     bad.append('N=%d: (g, c1, c2) = (%.6g, %.6g, %.6g), expected (%.6g, %.6g, %.6g)' % ((N,) + got + want))
         R.ob('K2-coef', 'CyberCycle:recursion', not bad and cnt > 0,
              'input gain (1 − α/2)² and feedback 2(1−α), −(1−α)² for %d window lengths' % cnt if not bad and cnt > 0 else (bad[0] if bad else 'new output row not found'), v.file)
     laguerre_rsi_ladder(F, R, Ns)
+    # "window of N filter values including the current one": the value/filter windows hold exactly N once full
+    from .e_window import check_windows
+    only = {}
+    for n_, role in (('EhlersFisherTransform', 'input'), ('TrendFlex', 'recursive'), ('ReFlex', 'recursive'),
+                     ('PolarizedFractalEfficiency', 'input'), ('CyberCycle', 'input')):
+        if views.get(n_) is not None:
+            q_ = buffer_by_role(F, views[n_], role)
+            only[n_] = [q_] if q_ else []
+    check_windows(F, R, list(only), 'W1', only)
+    R.floor('W1', 5)
     transient_vs_reference(F, R, tier)
     R.floor('K1-history', 3)
     fisher_feedback(F, R)
@@ -965,6 +1044,44 @@ def transient_vs_reference(F, R, tier):
         R.ob('K1-history', n, not bad and cnt > 0,
              'every output from the initial state on equals the stated difference equation from a zero or first-value initial state (%d configurations)' % cnt
              if not bad and cnt > 0 else (bad[0] if bad else 'nothing analysed'), v.file)
+
+
+def output_queue_no_hold(F, R):
+    """A recursive view whose outputs live in a queue must not re-push its previous output under a data-dependent
+    condition: a held value is an integrator (weight 1 on the past) -- two streams that merge keep their own level for ever."""
+    from .terms import cases
+    from .e3_bounds import Bounds, structural_cond
+    views = view_by_name(F)
+    for n in spec.RECURSIVE_VIEWS:
+        v = views.get(n)
+        if v is None:
+            continue
+        q = buffer_by_role(F, v, 'output')
+        if q is None:
+            continue
+        m = model(F, v)
+        ctx_ = Bounds(F, v).ctx(m.up_vg)
+        bad = None
+        npush = 0
+        for ex in m.up_exits:
+            t = ex.fields.get(q, ('in', q))
+            for x in subterms(t):
+                if x[0] in ('push_back', 'push_front'):
+                    npush += 1
+                    try:
+                        cs = cases(x[2])
+                    except OverflowError:
+                        cs = [((), x[2])]
+                    for conds, leaf in cs:
+                        val = leaf[1] if leaf[0] == 'some' else leaf
+                        held = val[0] in ('back', 'front', 'get') and any(y == ('in', q) for y in subterms(val[1]))
+                        if val[0] == 'payload' and val[1][0] in ('back', 'front', 'get'):
+                            held = any(y == ('in', q) for y in subterms(val[1]))
+                        if held:
+                            data = [c for c in list(conds) + [c for c in ex.pc if isinstance(c, tuple)] if not structural_cond(c, ctx_) and c[0] != 'inloop']
+                            if data:
+                                bad = 'the previous output %s is pushed again under the data-dependent condition %s' % (tstr(val)[:40], tstr(data[-1])[:70])
+        R.ob('S6-no-hold', n, bad is None and npush > 0, 'no push of the previous output under a data-dependent condition (%d push sites)' % npush if bad is None else bad, v.file)
 
 
 def history_fading(F, R, tier):
